@@ -119,6 +119,42 @@ theorem C09_requeue_forgets_path (ss : List Strategy) (s : Sys) (id : Nat) (a : 
   · intro h; cases h
   · split <;> (intro h; cases h)
 
+/-- **Aborting an interrupted download deletes its own partial file and nothing else, and forgets the path.**
+Afterwards the download holds no path (a later start chooses anew), its name is free, every other entry is where
+it was and no entry appeared. -/
+theorem C09_abort_forgets_and_frees (ss : List Strategy) (s : Sys) (id : Nat) (a : Dl)
+    (hf : s.find id = some a) (hc : a.status = .broken) :
+    (step ss s (.abort id)).1.find id = none ∧
+    (step ss s (.abort id)).1.fs.has a.dir a.name = false ∧
+    (∀ e ∈ s.fs, (e.dir, e.name) ≠ (a.dir, a.name) → e ∈ (step ss s (.abort id)).1.fs) ∧
+    (∀ e ∈ (step ss s (.abort id)).1.fs, e ∈ s.fs) := by
+  have hst : (step ss s (.abort id)).1 =
+      { fs := s.fs.filter (fun e => !(e.dir == a.dir && e.name == a.name)), dls := s.drop id } := by
+    simp only [step, hf]
+    rw [if_pos hc]
+  rw [hst]
+  refine ⟨?_, ?_, ?_, ?_⟩
+  · simp only [Sys.find, Sys.drop, List.find?_eq_none, List.mem_filter]
+    intro x hx
+    simpa using hx.2
+  · unfold Fs.has
+    rw [Bool.eq_false_iff]
+    intro h
+    rw [List.any_eq_true] at h
+    obtain ⟨e, he, hq⟩ := h
+    have := (List.mem_filter.mp he).2
+    rw [hq] at this
+    cases this
+  · intro e he hne
+    rw [List.mem_filter]
+    refine ⟨he, ?_⟩
+    simp only [Bool.not_eq_eq_eq_not, Bool.not_true, Bool.and_eq_false_iff, beq_eq_false_iff_ne, ne_eq]
+    by_cases hd : e.dir = a.dir
+    · right; intro hn; exact hne (by rw [hd, hn])
+    · left; exact hd
+  · intro e he
+    exact (List.mem_filter.mp he).1
+
 /-- **A moved-away file frees its name and nothing else.** After the user has moved the file of a completed
 download away, that name does not exist in the directory any more (the next download of an equally named
 file may take it), every other entry is where it was, and no entry appeared. -/
